@@ -228,12 +228,12 @@ def run_check(spec: CheckSpec, tier: str, seed: int, replay: str | None = None, 
         "coverage": {
             "obligations": (audit or {}).get("obligations", len(spec.theorems)),
             "discharged": (audit or {}).get("discharged", 0),
-            "checker_cmd": "cd lean && lake build LK lkdriver && lake env lean LK/Audit.lean",
+            "checker_cmd": f"cd lean && lake build LK.Props.{spec.pid} lkdriver && lake env lean <#print axioms of the {(audit or {}).get('obligations', len(spec.theorems))} restated theorems of {spec.pid} in props.index>" + (" && lake env leanchecker LK.Props." + spec.pid + " + imports" if tier == "thorough" else ""),
             "trusted_base": TRUSTED_BASE,
             "evaluations": evaluations, "distinct_nontrivial": len(seen), "rule": spec.nontrivial_rule,
             "samples": samples, "traces_validated_against_impl": evaluations,
             "boundary_classes": class_counts, "known_finding_hits": known_hits, "violation_signatures": {" + ".join(k): n for k, n in reported.items()},
-            "theorems": spec.theorems, "correspondence_ops": spec.correspondence_ops,
+            "theorems": spec.theorems, "correspondence_ops": spec.correspondence_ops, "leanchecker": (audit or {}).get("leanchecker"),
         },
         "assumptions": TRUSTED_BASE, "wall_s": round(time.time() - t0, 2), "violations": violations,
     }
